@@ -177,7 +177,7 @@ def main(argv):
         return replay_main(prop, H, argv[3])
     cfgs = H.configs(tier)
     n = len(cfgs)
-    nproc = max(1, min(NPROC, n))
+    nproc = max(1, min(NPROC, n, getattr(H, 'NPROC', NPROC)))
     tmp = tempfile.mkdtemp(prefix=f'verif_{prop}_')
     pids = {}
     try:
